@@ -153,16 +153,18 @@ Fixpoint chk_steps (k : Z) (ms : pst) (carry : list (nat * nat * Z)) (offs : lis
       chk_steps (k + 1) ms' carry' (new_offender s ++ offs) (outs ++ [o_out (st_obs s)]) ss'
   end.
 
-Definition hcase := list step.
-Definition chk_history (h : hcase) : Z := chk_steps 0 init [] [] [] h.
-
-(* the same history through the specification only (used to tell which policy a tree implements) *)
+(* the whole history through the specification first: a model mismatch at an early call must not hide a violation of the
+   specification at a later one *)
 Fixpoint spec_only (k : Z) (offs : list offender) (outs : list iout) (ss : list step) : Z :=
   match ss with
   | [] => 0
   | s :: ss' => if negb (spec_step offs outs s) then 1 + 10 * (k + 1)
                 else spec_only (k + 1) (new_offender s ++ offs) (outs ++ [o_out (st_obs s)]) ss'
   end.
+
+Definition hcase := list step.
+Definition chk_history (h : hcase) : Z :=
+  let c := spec_only 0 [] [] h in if c =? 0 then chk_steps 0 init [] [] [] h else c.
 
 (* ------------------------------------------------------------------ generator histories *)
 Inductive gout := GOk (name : Z) | GErr (e : gerr) | GOther.
